@@ -89,7 +89,7 @@ def shape_failures(orig, out, config):
     if len(assigned) != len(set(assigned)):
         bad.append(('a temporary is assigned by two hoisted statements', sorted(x for x in set(assigned) if assigned.count(x) > 1)[0]))
     # every position the configuration asks to be named holds a name or literal afterwards
-    t = anf.AnfTransformer(_ctx(), config)
+    t = G.SpecConfig(config, anf)       # the documented reading of the configuration, not the implementation's
     strict = (ast.Call, ast.BinOp, ast.UnaryOp, ast.Compare, ast.Attribute, ast.Subscript, ast.Dict, ast.Set,
               ast.Return, ast.Raise)
 
@@ -114,14 +114,14 @@ def shape_failures(orig, out, config):
                     continue      # the index tuple of an extended slice cannot stand alone
                 if isinstance(getattr(c, 'ctx', None), (ast.Store, ast.Del)):
                     continue
-                if t._should_transform(n, f, c):
+                if t.should(n, f, c):
                     bad.append(('a position the configuration asks to be named still holds a compound expression',
                                 '%s.%s = %s' % (type(n).__name__, f, unparse(c))))
         elif isinstance(n, (ast.If, ast.For, ast.With)):
             cs = [('test', n.test)] if isinstance(n, ast.If) else [('iter', n.iter)] if isinstance(n, ast.For) \
                 else [('items', it.context_expr) for it in n.items]
             for f, c in cs:
-                if not anf._is_trivial(c) and t._should_transform(n, f, c):
+                if not anf._is_trivial(c) and t.should(n, f, c):
                     bad.append(('a statement header the configuration asks to be named still holds a compound expression',
                                 '%s.%s = %s' % (type(n).__name__, f, unparse(c))))
     return bad[:3]
@@ -177,8 +177,7 @@ def classify(orig, out, config, what, detail=None):
         # first divergence = the transformed code repeats the truth test it has just made
         if 0 < i < len(et) and et[i].startswith('bool(') and et[i] == et[i - 1]:
             return 'anf-boolop-test-double-truth'
-    t = anf.AnfTransformer(_ctx(), config)
-    m = G.Mirror(t._should_transform, anf._is_trivial)
+    m = G.Mirror(G.SpecConfig(config, anf).should, anf._is_trivial)
     for s in orig.body:
         m.stmt(s)
     for r in ('anf-assign-target-order', 'anf-dict-order', 'anf-starred-unpack-order', 'anf-sibling-order'):
@@ -189,8 +188,7 @@ def classify(orig, out, config, what, detail=None):
 
 def mirror(orig, config):
     from malt.pyct.common_transformers import anf
-    t = anf.AnfTransformer(_ctx(), config)
-    m = G.Mirror(t._should_transform, anf._is_trivial)
+    m = G.Mirror(G.SpecConfig(config, anf).should, anf._is_trivial)
     for s in orig.body:
         m.stmt(s)
     return m
@@ -199,7 +197,7 @@ def mirror(orig, config):
 def lazy_positions(node, config):
     """lazy constructs of the original out of which the configuration would hoist something"""
     from malt.pyct.common_transformers import anf
-    t = anf.AnfTransformer(_ctx(), config)
+    t = G.SpecConfig(config, anf)
     out = []
     for n in ast.walk(node):
         if isinstance(n, (ast.ListComp, ast.SetComp, ast.DictComp, ast.GeneratorExp)):
@@ -211,11 +209,11 @@ def lazy_positions(node, config):
             fld = {id(c): f for f in n._fields for c in (getattr(n, f) if isinstance(getattr(n, f), list) else [getattr(n, f)])
                    if isinstance(c, ast.AST)}
             for c in kids:
-                if not anf._is_trivial(c) and t._should_transform(n, fld[id(c)], c):
+                if not anf._is_trivial(c) and t.should(n, fld[id(c)], c):
                     out.append(n)
                     break
         elif isinstance(n, ast.While):
-            if not anf._is_trivial(n.test) and t._should_transform(n, 'test', n.test):
+            if not anf._is_trivial(n.test) and t.should(n, 'test', n.test):
                 out.append(n)
     return out
 
@@ -280,6 +278,22 @@ def _programs(run):
         for fn in sorted(os.listdir(corpus)):
             if fn.endswith('.py'):
                 progs.append(('corpus', open(os.path.join(corpus, fn)).read(), None, 'default'))
+    # fixed stream: one field slot at a time, for every AST field name nested in another one, with ANY
+    # parent/child, LEAVE in front of the default rules and REPLACE alone, on a program that has a
+    # compound operand under value / values / args / elts / keys / targets / body / test positions
+    fixed_src = ('def fn(%s):\n  x.m = y[c] = g(a(1)).m[b(2)]\n  if f(*p, k0={h(3): o(4)}) and q:\n'
+                 '    return [d(5), (e(6), 7)]\n  return (lambda: z) if x else g(a(8))[b(9)]\n' % ', '.join(G.PARAMS))
+    fixed_src2 = 'def fn(%s):\n  return g(a(1))[b(2)].val\n' % ', '.join(G.PARAMS)
+    dflt = [(anf.ASTEdgePattern(anf.ANY, anf.ANY, (ast.Constant, ast.Name)), anf.LEAVE),
+            (anf.ASTEdgePattern(anf.ANY, anf.ANY, ast.expr), anf.REPLACE)]
+    dflt_d = ('(anf.ASTEdgePattern(anf.ANY, anf.ANY, (ast.Constant, ast.Name)), anf.LEAVE), '
+              '(anf.ASTEdgePattern(anf.ANY, anf.ANY, ast.expr), anf.REPLACE)')
+    for f in G.NESTED_FIELDS:
+        for src in (fixed_src, fixed_src2):
+            progs.append(('fixed', src, [(anf.ASTEdgePattern(anf.ANY, f, anf.ANY), anf.LEAVE)] + dflt,
+                          '[(anf.ASTEdgePattern(anf.ANY, %r, anf.ANY), anf.LEAVE), %s]' % (f, dflt_d)))
+            progs.append(('fixed', src, [(anf.ASTEdgePattern(anf.ANY, f, anf.ANY), anf.REPLACE)],
+                          '[(anf.ASTEdgePattern(anf.ANY, %r, anf.ANY), anf.REPLACE)]' % f))
     for i in range(n_model):
         g = G.Gen(rnd, 'model', lazy=0.0, maxdepth=rnd.choice([1, 2, 2, 3]))
         cfg, cd = G.gen_config(rnd, anf)
@@ -435,7 +449,7 @@ def replay(path):
     r = doc.get('replay', {})
     if 'program' in r:
         from malt.pyct.common_transformers import anf   # noqa
-        cfg = None if r['config'] == 'default' else eval(r['config'], {'anf': anf, 'ast': ast})
+        cfg = None if r['config'] == 'default' else eval(r['config'], {'anf': anf, 'ast': ast, 'ANY': anf.ANY})
         status, fails, out = oracle(r['program'], cfg, r.get('oracle_seed', 0))
         print('status now:', status)
         for f in fails:
